@@ -149,7 +149,7 @@ PROP_ROLES = {
 EVALUATOR_ROLES = {'op_base', 'op_base_as_node', 'op_override', 'closure', 'scoped_dict_method'}
 for _p, _roles in PROP_ROLES.items():
     if _roles is not None:
-        PROP_ROLES[_p] = set(_roles) | {'parser_action', 'token_rule'} | EVALUATOR_ROLES
+        PROP_ROLES[_p] = set(_roles) | {'parser_action', 'token_rule', 'sq_parser'} | EVALUATOR_ROLES
 CARRIED_ROLES = ('helper', 'scoped_dict_method', 'parser_action', 'token_rule', 'op_base')
 
 
